@@ -315,7 +315,23 @@ def t_avail(rec, seed, tier, name):
         o_avail(rec, {"name": name, "backend": b}, soft=True)
 
 
+def registry_view(rec, name):
+    """passlib.registry's own helpers agree with the hasher (and so with the independent demonstration of host support)"""
+    from passlib import registry
+
+    h = table.handler(name)
+    if "os_crypt" not in getattr(h, "backends", ()):
+        return
+    sup = host_supports(name, "os_crypt")
+    got = (bool(registry.has_os_crypt_support(name)), registry.has_backend(name, "os_crypt", safe=True), registry.has_backend(name, "os_crypt"))
+    if got != (sup, sup, sup):
+        rec.fail(f"C03/registry-view/{name}", "registry.has_os_crypt_support / has_backend disagree with demonstrated host support", "availability", {"name": name, "backend": "os_crypt"}, got, sup, soft=True)
+    if name in registry.get_supported_os_crypt_schemes() and not sup or (sup and name in ("des_crypt", "md5_crypt", "sha256_crypt", "sha512_crypt", "bsdi_crypt", "sha1_crypt", "bcrypt") and name not in registry.get_supported_os_crypt_schemes()):
+        rec.fail(f"C03/registry-os-crypt-schemes/{name}", "registry.get_supported_os_crypt_schemes() disagrees with demonstrated host support", "availability", {"name": name, "backend": "os_crypt"}, list(registry.get_supported_os_crypt_schemes()), sup, soft=True)
+
+
 def t_avail_default(rec, seed, tier, name):
+    registry_view(rec, name)
     """first use without selecting anything: hash works and get_backend names an available backend"""
     h = table.handler(name)
     s = _probe_settings(name)
